@@ -5,7 +5,7 @@
    finding F-CPP-ZEROS, status fixed): it cleared ceil(length/8) bytes from offset/8 and restored only the low bits of the first
    byte, so (a) a range that crosses a byte boundary from a non-zero bit offset was under-zeroed and (b) bits after the end of
    the range inside the last touched byte were cleared as well. *)
-From Verif Require Import Bits CPrims CPrimsThm CppPrims CppPrimsThm CppPrimsMoreThm.
+From Verif Require Import Bits CPrims CPrimsThm CPrimsW CPrimsWThm CppPrims CppPrimsThm CppPrimsMoreThm.
 Open Scope N_scope.
 
 Definition setZeros_old (s : span) (length : N) : option (bytes + err) :=
@@ -49,26 +49,133 @@ Example setZeros_now_on_the_witnesses :
   setZeros (mkspan [255; 255] 2 7) 2 = Some (inl [127; 254]) /\ setZeros (mkspan [255] 1 0) 1 = Some (inl [254]).
 Proof. vm_compute. split; reflexivity. Qed.
 
-(* any_bitspan::subspan(bits) / subspan_bytes(n) before the fix commit 939fc9d ("subspan never forms a pointer beyond one past
-   the end of the data"): pointer + offset_bytes without a clamp.  This is the text modelled by CppPrims.subspan /
-   CppPrims.subspan_bytes (still in that file because Codec/CppWalkerInst.v unfolds it); the statement that used to be the second
-   conjunct of C14_cpp_pad_and_subspans.  The current source is PrimsExt.subspan_clamped (theorem subspan_clamped_spec). *)
-Theorem subspan_unclamped_spec :
-  forall (s : span) (bits size_bytes bits_at size_bits : N),
-    span_okb s = true -> (sp_off s + bits <? two64) && (sp_off s + bits_at <? two64) && (size_bits + 8 <? two64) = true ->
-    (let k := (sp_off s + bits) / 8 in
-     let s' := subspan s bits in
-     sp_data s' = skipn (N.to_nat k) (sp_data s) /\ sp_off s' = (sp_off s + bits) mod 8 /\
-     sp_size s' = sp_size s - k /\ 8 * k + sp_off s' = sp_off s + bits /\
-     (forall p, bit (sp_data s') p = bit (sp_data s) (8 * k + p)) /\
-     sp_bits s' = sp_size s * 8 - (sp_off s + bits)) /\
-    (let s' := subspan_bytes s size_bytes in
-     sp_data s' = skipn (N.to_nat (sp_off s / 8)) (sp_data s) /\ sp_off s' = sp_off s mod 8 /\
-     sp_size s' = N.min size_bytes (sp_size s - sp_off s / 8)) /\
-    (let k := (sp_off s + bits_at) / 8 in
-     let o := (sp_off s + bits_at) mod 8 in
-     if (sp_size s <? k) || ((sp_size s - k) * 8 <? o + size_bits)
-     then subspan2 s bits_at size_bits = inr TooSmall
-     else subspan2 s bits_at size_bits = inl (mkspan (skipn (N.to_nat k) (sp_data s)) ((o + size_bits) / 8) o) /\
-          k + (o + size_bits) / 8 <= sp_size s).
-Proof. exact subspans_spec_b. Qed.
+(* ---------------------------------------------------------------------------------------------
+   any_bitspan::subspan(bits) / subspan_bytes(n) before the fix commit 939fc9d ("subspan never forms a pointer beyond one past the
+   end of the data"): pointer + offset_bytes without a clamp.  Current text: PrimsExt.subspan_clamped / subspan_bytes_clamped. *)
+
+Definition subspan (s : span) (bits : N) : span :=
+  let offset_bits := w64 (sp_off s + bits) in
+  let offset_bytes := offset_bits / 8 in
+  let offset_bits_mod := offset_bits mod 8 in
+  let new_size := if offset_bytes <? sp_size s then sp_size s - offset_bytes else 0 in
+  mkspan (skipn (N.to_nat offset_bytes) (sp_data s)) new_size offset_bits_mod.
+
+(* any_bitspan::subspan_bytes(size_bytes) *)
+Definition subspan_bytes (s : span) (size_bytes : N) : span :=
+  let whole := subspan s 0 in
+  let available := sp_size whole in
+  mkspan (sp_data whole) (if size_bytes <? available then size_bytes else available) (sp_off whole).
+
+
+Theorem subspan_spec s bits :
+  span_ok s -> sp_off s + bits < two64 ->
+  let k := (sp_off s + bits) / 8 in
+  let s' := subspan s bits in
+  sp_data s' = skipn (N.to_nat k) (sp_data s) /\ sp_off s' = (sp_off s + bits) mod 8 /\
+  sp_size s' = sp_size s - k /\ 8 * k + sp_off s' = sp_off s + bits /\
+  (forall p, bit (sp_data s') p = bit (sp_data s) (8 * k + p)) /\
+  sp_bits s' = sp_size s * 8 - (sp_off s + bits) /\
+  (k <= sp_size s -> span_ok s').
+Proof.
+  intros (S1 & S2 & S3) Hw k s'. subst s'. unfold subspan. rewrite (w64_small (sp_off s + bits)) by exact Hw. fold k.
+  cbn [sp_data sp_off sp_size].
+  assert (T64 : two64 = 18446744073709551616) by reflexivity.
+  assert (Hsz : (if k <? sp_size s then sp_size s - k else 0) = sp_size s - k) by (destruct (N.ltb_spec k (sp_size s)); lia).
+  rewrite Hsz. repeat split; try reflexivity.
+  - subst k. lia.
+  - intros p. apply bit_skipn.
+  - unfold sp_bits. cbn [sp_size sp_off]. rewrite w64_small by lia.
+    destruct (N.ltb_spec ((sp_size s - k) * 8) ((sp_off s + bits) mod 8)); subst k; lia.
+  - cbn [sp_size sp_data]. unfold blen in *. rewrite skipn_length. lia.
+  - cbn [sp_data]. unfold blen in *. rewrite skipn_length. lia.
+  - cbn [sp_off]. pose proof (N.mod_lt (sp_off s + bits) 8). lia.
+Qed.
+
+Theorem subspan_bytes_spec s size_bytes :
+  span_ok s ->
+  let s' := subspan_bytes s size_bytes in
+  sp_data s' = skipn (N.to_nat (sp_off s / 8)) (sp_data s) /\ sp_off s' = sp_off s mod 8 /\
+  sp_size s' = N.min size_bytes (sp_size s - sp_off s / 8).
+Proof.
+  intros Hs. pose proof Hs as (S1 & S2 & S3).
+  destruct (subspan_spec s 0 Hs ltac:(lia)) as (H1 & H2 & H3 & _).
+  rewrite N.add_0_r in *. unfold subspan_bytes. cbn [sp_data sp_off sp_size]. rewrite H1, H2, H3.
+  repeat split. destruct (N.ltb_spec size_bytes (sp_size s - sp_off s / 8)); lia.
+Qed.
+
+Theorem subspans_spec_b s bits size_bytes bits_at size_bits :
+  span_okb s = true -> (sp_off s + bits <? two64) && (sp_off s + bits_at <? two64) && (size_bits + 8 <? two64) = true ->
+  (let k := (sp_off s + bits) / 8 in
+   let s' := subspan s bits in
+   sp_data s' = skipn (N.to_nat k) (sp_data s) /\ sp_off s' = (sp_off s + bits) mod 8 /\
+   sp_size s' = sp_size s - k /\ 8 * k + sp_off s' = sp_off s + bits /\
+   (forall p, bit (sp_data s') p = bit (sp_data s) (8 * k + p)) /\
+   sp_bits s' = sp_size s * 8 - (sp_off s + bits)) /\
+  (let s' := subspan_bytes s size_bytes in
+   sp_data s' = skipn (N.to_nat (sp_off s / 8)) (sp_data s) /\ sp_off s' = sp_off s mod 8 /\
+   sp_size s' = N.min size_bytes (sp_size s - sp_off s / 8)) /\
+  (let k := (sp_off s + bits_at) / 8 in
+   let o := (sp_off s + bits_at) mod 8 in
+   if (sp_size s <? k) || ((sp_size s - k) * 8 <? o + size_bits)
+   then subspan2 s bits_at size_bits = inr TooSmall
+   else subspan2 s bits_at size_bits = inl (mkspan (skipn (N.to_nat k) (sp_data s)) ((o + size_bits) / 8) o) /\
+        k + (o + size_bits) / 8 <= sp_size s).
+Proof.
+  intros Hb H. apply span_okb_ok in Hb as [Hs _]. apply andb_prop in H as [H H3]. apply andb_prop in H as [H1 H2].
+  apply N.ltb_lt in H1, H2, H3.
+  split.
+  { destruct (subspan_spec s bits Hs H1) as (A & B & C & D & E & F & _). repeat split; assumption. }
+  split; [apply subspan_bytes_spec; assumption|apply subspan2_spec; assumption].
+Qed.
+
+(* ---------------------------------------------------------------------------------------------
+   nunavutSetUxx / bitspan::setUxx before the fix commit ba46e0a (finding F-SETUXX-OFFSET-WRAP, status fixed): the capacity check
+   `(buf_size_bytes * 8) < (off_bits + len_bits)` added in size_t, so for an offset within len_bits of the maximum the sum wrapped,
+   the check passed and the copy left the buffer.  Current text: CPrims.set_uxx / CppPrims.cpp_set_uxx (saturating check, theorem
+   set_uxx_exact_all: every offset). *)
+Definition set_uxx_wrapM (M : N) (little : bool) (buf : bytes) (buf_size_bytes off_bits value len_bits : N) : option (bytes + err) :=
+  if wM M (buf_size_bytes * 8) <? wM M (off_bits + len_bits) then Some (inr TooSmall)
+  else
+    let saturated := choose_min len_bits 64 in
+    let tmp := if little then mem_le 8 (w64 value) else tmp_any (w64 value) in
+    match copy_bitsM M buf off_bits saturated tmp 0 with
+    | Some b => Some (inl b)
+    | None => None
+    end.
+Definition set_uxx_old := set_uxx_wrapM two64.
+Definition cpp_set_uxx_old (s : span) (value len_bits : N) : option (bytes + err) :=
+  if w64 (sp_size s * 8) <? w64 (sp_off s + len_bits) then Some (inr TooSmall)
+  else
+    let saturated := N.min len_bits 64 in
+    match copyTo (mkspan (tmp_any (w64 value)) 8 0) s saturated with
+    | Some b => Some (inl b)
+    | None => None
+    end.
+
+(* witness for both widths of size_t and the C++ twin: 2-byte buffer, offset 2^W - 8, 16 bits: out-of-range access (None)
+   although buf_pre holds and the buffer is too small; the current text reports TooSmall *)
+Theorem set_uxx_old_offset_wrap_refuted :
+  (exists buf size off value len,
+     buf_pre buf size off = true /\ size * 8 < off + len /\ set_uxx_old false buf size off value len = None /\
+     set_uxx_old true buf size off value len = None /\ set_uxx false buf size off value len = Some (inr TooSmall)) /\
+  (exists buf size off value len,
+     buf_preM (2 ^ 32) buf size off = true /\ size * 8 < off + len /\ set_uxx_wrapM (2 ^ 32) false buf size off value len = None) /\
+  (exists s value len, span_okb s = true /\ sp_bits s < len /\ cpp_set_uxx_old s value len = None /\
+                       cpp_set_uxx s value len = Some (inr TooSmall)).
+Proof.
+  split; [|split].
+  - exists [0; 0], 2, (two64 - 8), 255, 16. vm_compute. repeat split.
+  - exists [0; 0], 2, (2 ^ 32 - 8), 255, 16. vm_compute. repeat split.
+  - exists (mkspan [0; 0] 2 (two64 - 8)), 255, 16. vm_compute. repeat split.
+Qed.
+
+(* where the wrapping text was right: on off + len < 2^64 it agrees with the current one *)
+Theorem set_uxx_old_agrees_on_domain little buf size off value len :
+  size * 8 < two64 -> off + len < two64 -> set_uxx_old little buf size off value len = set_uxx little buf size off value len.
+Proof.
+  intros Hs Hl. unfold set_uxx_old, set_uxx_wrapM, set_uxx, wM, w64.
+  rewrite (N.mod_small (size * 8)), (N.mod_small (off + len)) by lia.
+  change (copy_bitsM two64) with copy_bits.
+  destruct (N.ltb_spec (size * 8) off); destruct (N.ltb_spec (size * 8 - off) len); destruct (N.ltb_spec (size * 8) (off + len));
+    cbn [orb]; first [reflexivity | exfalso; lia].
+Qed.
